@@ -160,6 +160,9 @@ func runDeviceChains(c *Ctx) {
 		var mu sync.Mutex
 		roundTrip := func(cl mangos.Socket, who int, j int, phase string) {
 			payload := append([]byte(fmt.Sprintf("c%d-%d-", who, j)), patterned(uint64(who*1000+j), c.R.Pick(0, 1, 5, 64, 300))...)
+			if j%4 == 3 {
+				payload = []byte{} // "for all payloads": an empty request is a request like any other
+			}
 			obs := "lost"
 			var got []byte
 			if err := cl.Send(payload); err == nil {
